@@ -80,10 +80,16 @@ def one_op(t, view, k, op, out, prefix, forks=None):
         elif o == 'root':
             out.append('%d.%s=%s' % (k, prefix, status(lambda: view.hash_tree_root().hex())))
         else:
+            old = view.get_backing()
+
             def mut():
                 apply_op(t, view, op)
                 return view.hash_tree_root().hex()
             out.append('%d.%s=%s' % (k, prefix, status(mut)))
+            if prefix == 'p' and o in ('set', 'app', 'pop', 'chg'):
+                res = out[-1].split('=', 1)[1]
+                out.insert(len(out) - 1, '%d.vshare=%s' % (k, status(lambda: refetched(old, view.get_backing()))))
+                return res
 
 
     return out[-1].split('=', 1)[1]
@@ -96,7 +102,30 @@ def run_ops(t, view, ops, out, prefix):
 
 
 def is_atomic_mut(op):
-    return op[0] in ('set', 'app', 'pop', 'chg', 'cpy', 'setf', 'sub')
+    return op[0] in ('set', 'app', 'pop', 'chg', 'cpy', 'setf', 'seth', 'sub')
+
+
+def refetched(old, new):
+    """positions at which the new backing holds a lazily loaded node that is not the very object the old backing
+    holds there although it has the same root (a sibling that was fetched again instead of being shared)"""
+    try:
+        from remerkleable.virtual import VirtualNode
+    except Exception:
+        return 0
+    bad = 0
+    stack = [(old, new)]
+    while stack:
+        x, y = stack.pop()
+        if x is y:
+            continue
+        if isinstance(x, VirtualNode) and isinstance(y, VirtualNode) and x.merkle_root() == y.merkle_root():
+            bad += 1
+            continue
+        if x.is_leaf() or y.is_leaf():
+            continue
+        stack.append((x.get_left(), y.get_left()))
+        stack.append((x.get_right(), y.get_right()))
+    return bad
 
 
 def run_partial(t, v, positions, ops):
